@@ -25,8 +25,8 @@ PLANS = {
     "C06": [("async", 4, 40), ("single", 3, 40), ("crashy", 3, 40), ("prevote", 2, 30), ("shrink", 2, 30), ("contend", 4, 30), ("transfer", 2, 30), ("s_transfer", 2, 20)],
     "C07": [("async", 4, 40), ("flow", 3, 40), ("snap", 3, 30), ("single", 2, 30), ("conf", 2, 20), ("contend", 4, 40), ("s_lagsnap", 3, 30)],
     "C08": [("read", 5, 80), ("readjoint", 4, 80), ("s_staleread", 8, 80), ("s_stalereadjoint", 8, 80)],
-    "C09": [("conf", 4, 40), ("joint", 4, 40), ("confv1", 3, 40), ("shrink", 2, 30), ("transfer", 2, 30), ("s_confmix", 6, 60), ("s_transfer", 4, 40)],
-    "C10": [("live", 10, 80)],
+    "C09": [("conf", 4, 40), ("joint", 4, 40), ("confv1", 3, 40), ("shrink", 2, 30), ("transfer", 2, 30), ("s_confmix", 5, 60), ("s_transfer", 3, 40), ("s_confbatch", 6, 60)],
+    "C10": [("live", 8, 80), ("s_lagsnap_live", 6, 60), ("s_transfer_live", 6, 60)],
     "C13": [("flow", 6, 80), ("snap", 3, 40), ("s_lagsnap", 6, 60), ("s_flowelect", 6, 60)],
     "C15": [("snap", 6, 100), ("conf", 2, 20), ("s_lagsnap", 10, 100)],
     "C16": [("prevote", 6, 80), ("checkquorum", 3, 40), ("lease3", 5, 100), ("lease5", 7, 100)],
@@ -35,7 +35,7 @@ PLANS = {
             ("snap", 2, 20), ("conf", 2, 15), ("joint", 3, 15), ("confv1", 2, 15), ("read", 2, 10), ("transfer", 2, 15),
             ("prevote", 1, 15), ("live", 1, 10), ("five", 1, 10), ("learners", 1, 10), ("readjoint", 2, 15), ("reelect", 1, 10),
             ("s_staleread", 2, 15), ("s_stalereadjoint", 1, 15), ("s_lagsnap", 3, 20), ("s_transfer", 2, 15), ("s_reelect", 1, 10),
-            ("s_flowelect", 1, 10), ("s_confmix", 3, 20)],
+            ("s_flowelect", 1, 10), ("s_confmix", 3, 20), ("s_lagread", 4, 30), ("s_confbatch", 1, 10)],
 }
 CHECKS = set(PLANS.keys())
 
@@ -185,6 +185,7 @@ def run(pid, tier, seed, replay, t0):
             if pid in json.load(open(f)).get("properties", []):
                 jobs.append(("directed", f))
 
+    prepared = []
     for job in jobs:
         if job[0] == "gen":
             _, prof, cnt = job
@@ -213,7 +214,17 @@ def run(pid, tier, seed, replay, t0):
                 if "choices_file" in cf:      # a replay descriptor written by an earlier failing run
                     src = cf["choices_file"]
                 n_ev, _skipped = vlib.simrun_replay(src, trace)
-        res = vlib.tlc_trace(trace, os.path.join(outdir, "md"))
+        prepared.append((job, label, trace, n_ev))
+
+    from concurrent.futures import ThreadPoolExecutor
+
+    def _judge(item):
+        return vlib.tlc_trace(item[2], item[2] + ".md")
+
+    with ThreadPoolExecutor(max_workers=6) as ex:
+        judged = list(ex.map(_judge, prepared))
+
+    for (job, label, trace, n_ev), res in zip(prepared, judged):
         total_states += res["states"]
         total_events += n_ev
         traces += 1
